@@ -481,7 +481,8 @@ def run(prop, tier, seed, rep, extra_inputs=None):
     import os
     json.dump(summary, open(os.path.join(core.BUILD, f"last_{prop}_verdicts.json"), "w"), indent=1, sort_keys=True)
     events = [e for e in events if e["ev"] == "decode"]
-    if prop == "C03":
+    if prop in ("C02", "C03"):
+        # the other decode path: acceptance (C02) and checksum (C03) when the frame comes from a reader that returns short reads
         reader_path_checksums(rng, tier, rep, hx)
     if tier == "thorough":
         selftest(prop, rep, events)
@@ -584,12 +585,13 @@ def reader_path_checksums(rng, tier, rep, hx):
         inp = {"bytes": list(b), "script": script, "tag": "crcpath", "between": []}
         if rng.random() < 0.3:
             # far into a long stream, also straddling a multiple of 2^32, alone or as the first of two frames
-            inp["base"] = rng.choice(([1, 2147483647], [1, 2147483646], [1, 2147483645], [1, 2147483644], [1, 2147483640], [2, 5], [3, 2147483646]))
+            inp["base"] = rng.choice(([1, 2147483647], [1, 2147483646], [1, 2147483645], [1, 2147483644], [1, 2147483640], [2, 5], [3, 2147483646],
+                                      [4294967295, 2147483647], [4294967295, 2147483646], [4294967295, 2147483645], [4294967295, 2147483644]))
             if len(b) in (7, 14) and rng.random() < 0.5:
                 inp["chain"] = 1
         ins.append(inp)
     ev = reader_checks.hx_reader(hx, ins)
-    verdicts, st, tr = core.validate_events("Trace_Reader", ev, "C03-reader")
+    verdicts, st, tr = core.validate_events("Trace_Reader", ev, rep.prop + "-reader")
     rep.add_trace_stats(st, tr, len(ev))
     for v in verdicts:
         e = ev[v["index"]]
